@@ -57,7 +57,11 @@ var vipRe = map[string]*regexp.Regexp{
 
 func newVerifFakeVIP() *verifFakeVIP {
 	f := &verifFakeVIP{OTP: map[string]int{}, Tx: map[string]*verifVIPTx{}, Calls: map[string]int{}}
-	f.Server = httptest.NewTLSServer(http.HandlerFunc(f.serve))
+	// (idle keep-alive connections are dropped quickly: the daemon's VIP client builds a transport per call and never
+	// reuses or closes its idle connections, which would exhaust descriptors in long walks)
+	f.Server = httptest.NewUnstartedServer(http.HandlerFunc(f.serve))
+	f.Server.Config.IdleTimeout = 2 * time.Second
+	f.Server.StartTLS()
 	return f
 }
 
@@ -140,6 +144,21 @@ func (f *verifFakeVIP) ApproveOnDevice(user string) int {
 	return n
 }
 
+// AnswerOnDevice: every pending push of user gets a final status other than "approved" (7002 denied by the user,
+// 7003 expired, 7004 timed out, 7006 error, or anything the service may send).
+func (f *verifFakeVIP) AnswerOnDevice(user, status string) int {
+	f.mu.Lock()
+	defer f.mu.Unlock()
+	n := 0
+	for _, tx := range f.Tx {
+		if tx.User == user && tx.Status == "7001" {
+			tx.Status, tx.Approved = status, false
+			n++
+		}
+	}
+	return n
+}
+
 func (f *verifFakeVIP) SetOTP(user string, otp int) {
 	f.mu.Lock()
 	f.OTP[user] = otp
@@ -159,13 +178,14 @@ type verifFakeOkta struct {
 	Password map[string]string // login -> password
 	OTP      map[string]string // login -> valid passcode
 	Push     map[string]string // login -> SUCCESS | WAITING | REJECTED
+	Expired  map[string]bool   // login -> the transaction Okta hands out has already expired (expiresAt in the past)
 	state    map[string]string // stateToken -> login
 	seq      int
 	Calls    map[string]int
 }
 
 func newVerifFakeOkta() *verifFakeOkta {
-	return &verifFakeOkta{Password: map[string]string{}, OTP: map[string]string{}, Push: map[string]string{},
+	return &verifFakeOkta{Password: map[string]string{}, OTP: map[string]string{}, Push: map[string]string{}, Expired: map[string]bool{},
 		state: map[string]string{}, Calls: map[string]int{}}
 }
 
@@ -186,8 +206,12 @@ func (f *verifFakeOkta) ServeHTTP(w http.ResponseWriter, r *http.Request) {
 		f.seq++
 		st := fmt.Sprintf("state-%d", f.seq)
 		f.state[st] = in.Username
+		exp := time.Now().Add(5 * time.Minute)
+		if f.Expired[in.Username] {
+			exp = time.Now().Add(-time.Second)
+		}
 		fmt.Fprintf(w, `{"stateToken":%q,"expiresAt":%q,"status":"MFA_REQUIRED","_embedded":{"user":{"id":"u1","profile":{"login":%q}},"factors":[{"id":"otp-%s","factorType":"token:software:totp","provider":"OKTA","vendorName":"OKTA"},{"id":"push-%s","factorType":"push","provider":"OKTA","vendorName":"OKTA"}]}}`,
-			st, time.Now().Add(5*time.Minute).UTC().Format(time.RFC3339), in.Username, in.Username, in.Username)
+			st, exp.UTC().Format(time.RFC3339), in.Username, in.Username, in.Username)
 		return
 	}
 	if strings.HasPrefix(r.URL.Path, "/api/v1/authn/factors/") && strings.HasSuffix(r.URL.Path, "/verify") {
